@@ -69,12 +69,12 @@ CHECKS = {
             "Every provider API call the engine makes in a base execution is failed once with a temporary, disconnected, token or "
             "out-of-space error before its effect, every mutating call also right after its effect; plus permanent per-path "
             "failures lifted after 0..8 rounds; pairs of faults on the intake path (events() and one of the next six calls) faults "
-            "during conflict resolution with an application resolver, and faults during a first-ever start. Afterwards the run must go quiet, converge without loss and have raised the "
+            "during conflict resolution with an application resolver, faults during a first-ever start, and - for a brand-new pair (empty roots, first cursor values) and multi-event batches of an established pair - a fault before each further event of an intake batch. Afterwards the run must go quiet, converge without loss and have raised the "
             "matching notification.", NOTE_E1, "5/C10"),
     "C08": ("seqx+enumx", TECH_E1 + " with a persistence monitor; " + TECH_E4 + " for the codec",
             "After every engine transition of every interleaving of the C01 history list (storage attached) the stored rows "
             "must equal the live entries byte for byte, with no stale row and an empty dirty set, and a SyncState reloaded "
-            "from a copy of the storage must have the same entries, pending set and id/path lookups; the per-tag data rows (cursor, walk marker) behave like one value per tag for every sequence of get/update/delete/forget by two states over one store up to depth 5 (6); intake batches cut short by a provider error after 1-2 events are included. The codec is enumerated "
+            "from a copy of the storage must have the same entries, pending set and id/path lookups; the per-tag data rows (cursor, walk marker) behave like one value per tag for every sequence of get/update/delete/forget by two states over one store up to depth 5 (6); intake batches cut short by a provider error after 1-2 events, and histories in which ONE storage write (the k-th, k<6/10) fails, are included. The codec is enumerated "
             "over every combination of hash shape, path, id, existence, ignore reason and stamp values, plus legacy rows.",
             NOTE_E1, "5/C08"),
     "C09": ("apix", TECH_E2,
@@ -133,12 +133,12 @@ CHECKS = {
             "prioritise functions; at every pick the entry handed to the sync routine must be eligible and minimal by (priority, "
             "age), a negative priority must be justified by prioritize() of a path the entry has now, and every engine write must "
             "come at least the ageing interval after the last notification for that object unless its priority is negative; plus every "
-            "order of 3-4 notifications for entries pending on both sides, and a starvation scenario.", NOTE_E1, "5/C17"),
+            "order of 3-4 notifications for entries pending on both sides, a starvation scenario, and engines built with every ordered pair of poll intervals from {0.5,5,10,15}s whose derived ageing must be max/5 and must be honoured on either side.", NOTE_E1, "5/C17"),
     "C20": ("seqx", TECH_E1,
             "SmartCloudSync with application calls (request, un-request, list) as explorer actions next to user operations and "
             "engine steps, every interleaving, with one, two or three registered auto-sync predicates: no local file that is not local-origin, requested or predicate-matched after any "
             "action; listing flags; at quiet states folders mirrored, local creations uploaded, requested files byte-equal, "
-            "un-request keeps the remote copy with the newest bytes, also when the upload of the pending edit hits a transient error.", NOTE_E1, "5/C20"),
+            "un-request keeps the remote copy with the newest bytes, also when the upload of the pending edit hits a transient error, and pushes a pending local rename (un-request by old or new name).", NOTE_E1, "5/C20"),
     "C18": ("thrx+enumx", TECH_E3 + " (line-level scheduling points in runnable.py/notification.py); " + TECH_E4 + " for the backoff law",
             "Six stop/start/wake scenarios, two notification scenarios and two long-poll scenarios run on real threads with a "
             "scheduling point at every source line of runnable.py and every Event/Thread/Queue operation, all schedules with <=2 "
